@@ -106,6 +106,8 @@ def build(targets=None):
             pairs.append(("driver_" + suf, "model_" + suf))
         if os.path.exists(os.path.join(OCAML, "jitdriver.ml")):
             pairs.append(("jitdriver", "jitmodel"))
+        if os.path.exists(os.path.join(OCAML, "gluedriver.ml")):
+            pairs.append(("gluedriver", "gluemodel"))
         for drv_name, mod_name in pairs:
             drv = os.path.join(OCAML, drv_name)
             srcs = [os.path.join(OCAML, mod_name + ".ml"), os.path.join(OCAML, drv_name + ".ml")]
@@ -135,6 +137,9 @@ def proof_status(pid):
     extra = os.path.join(COQ, "Properties", pid + "b.v")     # companion file (kernel-text refinement theorems)
     if os.path.exists(extra):
         src += "\n" + open(extra).read()
+    extra_c = os.path.join(COQ, "Properties", pid + "c.v")   # companion file (glue-text refinement theorems)
+    if os.path.exists(extra_c):
+        src += "\n" + open(extra_c).read()
     names = re.findall(r"^\s*(?:Theorem|Corollary)\s+([A-Za-z0-9_']+)", src, re.M)
     res["theorems"] = names
     res["obligations"] = len(names)
@@ -143,6 +148,9 @@ def proof_status(pid):
         rc, out = sh(f"timeout 900 coqc -Q . Verif Properties/{pid}.v", cwd=COQ, timeout=1000)
         if rc == 0 and os.path.exists(extra):
             rc, out2 = sh(f"timeout 900 coqc -Q . Verif Properties/{pid}b.v", cwd=COQ, timeout=1000)
+            out += out2
+        if rc == 0 and os.path.exists(extra_c):
+            rc, out2 = sh(f"timeout 900 coqc -Q . Verif Properties/{pid}c.v", cwd=COQ, timeout=1000)
             out += out2
     res["log"] = out[-3000:] if rc != 0 else ""
     if rc == 0 and not bad:
@@ -172,6 +180,7 @@ def coqchk(pid):
         return r
     with Lock("build"):
         mods = f"Verif.Properties.{pid}" + (f" Verif.Properties.{pid}b" if os.path.exists(os.path.join(COQ, "Properties", pid + "b.vo")) else "")
+        mods += f" Verif.Properties.{pid}c" if os.path.exists(os.path.join(COQ, "Properties", pid + "c.vo")) else ""
         mode = "recursive"
         if pid in COQCHK_NOREC:
             # re-check every module of THIS development in the property's dependency closure, admitting the external libraries as installed
